@@ -152,6 +152,9 @@ class Engine:
                 if g.init is not None:
                     self._store_const(st, self.gaddr[name], g.ty, g.init)
             for a, v in st.cmem.items():
+                if isinstance(v, int):
+                    self.init_bytes[a] = v
+                    continue
                 v = simp(v)
                 if is_conc(v):
                     self.init_bytes[a] = v.as_long()
@@ -459,9 +462,23 @@ class Engine:
                 v = z3.BitVec("uninit_%x" % a, 8)
             else:
                 v = BV(v, 8)
+        elif isinstance(v, int):
+            v = BV(v, 8)
         return v
 
     def load_conc(self, st, av, nbytes):
+        # fast path: every byte is a known constant (kept as Python ints in cmem / init_bytes)
+        val = 0
+        cm, ib = st.cmem, self.init_bytes
+        for i in range(nbytes):
+            b = cm.get(av + i)
+            if b is None:
+                b = ib.get(av + i)
+            if not isinstance(b, int):
+                break
+            val |= b << (8 * i)
+        else:
+            return BV(val, 8 * nbytes)
         bs = [self.cbyte(st, av + i) for i in range(nbytes)]
         if nbytes == 1:
             return bs[0]
@@ -496,8 +513,13 @@ class Engine:
         a = self.check_access(st, kind, addr, nbytes) if check else simp(addr)
         if is_conc(a) and self.classify(a.as_long()) != "other":
             av = a.as_long()
-            for i in range(nbytes):
-                st.cmem[av + i] = simp(z3.Extract(8 * i + 7, 8 * i, v))
+            if is_conc(v):
+                val = v.as_long()
+                for i in range(nbytes):
+                    st.cmem[av + i] = (val >> (8 * i)) & 0xFF
+            else:
+                for i in range(nbytes):
+                    st.cmem[av + i] = simp(z3.Extract(8 * i + 7, 8 * i, v))
             return
         lv = None if is_conc(a) else self.leaves_or_enum(st, a)
         if lv is not None:
